@@ -174,7 +174,7 @@ def tokens_to_tokens(tokens: list[Token], tokenizer: Tokenizer) -> list[Token]:
     for token in tokens:
         if token.token_type == TokenType.OPERATOR:
             if token.string == ":":
-                if not return_tokens:
+                if not return_tokens or return_tokens[-1].token_type != TokenType.KEYWORD:
                     raise JMCSyntaxException(
                         "Unexpected ':' in expression evaluation", token, tokenizer)
                 return_tokens[-1] = tokenizer.merge_tokens(
@@ -200,6 +200,9 @@ def tokens_to_tokens(tokens: list[Token], tokenizer: Tokenizer) -> list[Token]:
                 expect_semicolon=False,
                 allow_semicolon=False
             )
+            if not tokenizer_.programs:
+                raise JMCSyntaxException(
+                    "Unexpected empty round bracket, `()`, in expression evaluation", token, tokenizer)
             if is_hanging_negative_sign:
                 negative_sign_token = return_tokens.pop()
                 return_tokens.append(Token(TokenType.OPERATOR,
@@ -300,6 +303,9 @@ def expression_to_tree(expression: list[Token], tokenizer: Tokenizer, datapack: 
             if len(func) > 1:
                 raise JMCSyntaxException(
                     "Command evaluation '{}' inside expression evaluation cannot return multiple command", token, tokenizer_)
+            if not func:
+                raise JMCSyntaxException(
+                    "Command evaluation '{}' inside expression evaluation does not result in any command", token, tokenizer)
             number_stack.append(CommandNumber(func[0], token))
         elif token.string == "(":
             operator_stack.append(OPEN_BRACKET)
@@ -308,7 +314,7 @@ def expression_to_tree(expression: list[Token], tokenizer: Tokenizer, datapack: 
         elif token.string.startswith("$"):
             number_stack.append(
                 Variable(f"{token.string} {DataPack.var_name}", token))
-        elif ":" in token.string:
+        elif token.string.count(":") == 1:
             objective, player = token.string.split(":")
             number_stack.append(
                 Variable(f"{player} {objective}", token))
@@ -319,6 +325,9 @@ def expression_to_tree(expression: list[Token], tokenizer: Tokenizer, datapack: 
     if len(number_stack) > 1:
         raise JMCSyntaxException(
             "Number stack is not empty at the end of expression evaluation", number_stack[0].token, tokenizer)
+    if not number_stack:
+        raise JMCSyntaxException(
+            "Number stack is empty at the end of expression evaluation", expression[-1], tokenizer)
     return number_stack[0]
 
 
